@@ -253,7 +253,7 @@ theorem no_helper_searching {r : Fin n} {s : St n} (h : Reach r s) (hs : searchP
       · rfl
       · rw [actPc_searchPc hh] at e; cases e
     · rw [e]; rfl
-  exact ((quiescent_at_ack_partial h hnr hna).2.2 v hv hvr).2.1
+  exact ((quiescent_at_ack h hnr hna).2.2.1 v hv hvr).2.1
 
 /-- a search-time read by a thread other than the engine thread comes from a helper inside `doSearch` -/
 theorem searchReader_helper {r : Fin n} {s : St n} (h : Reach r s) {e : Ev n} (hen : (step r s e).isSome = true)
